@@ -171,8 +171,15 @@ def select(ctx, behs, n):
     want = {k: max(1, int(round(q * n))) for k, q in QUOTA}
     for k, _ in QUOTA:
         take = by.get(k, [])[:want[k]]
-        chosen += take
         by[k] = by.get(k, [])[len(take):]
+        if k == "pair" and take:
+            # few distinct pair programs exist (option sets x order): run them again on
+            # other volume classes / layouts until the quota is filled
+            j = 0
+            while len(take) < want[k]:
+                take.append(take[j])
+                j += 1
+        chosen += take
     # fill up / trim to n, round robin over the strata
     keys = [k for k, _ in QUOTA]
     i = 0
